@@ -232,6 +232,16 @@ func c18Cases(rng *rand.Rand, base string, rounds int) []c18Case {
 		add("type-params-scalar", c18Doc(base, def, nil)+"params: 5\n", "reject", "params is not a list")
 		add("type-params-mapping", c18Doc(base, def, nil)+"params:\n  id: 1\n", "reject", "params is a mapping")
 		add("type-basedir-list", strings.Replace(c18Doc(base, def, sets), fmt.Sprintf("basedir: %q", base), "basedir: [a, b]", 1), "reject", "basedir is a list")
+		// null entries in the list of parameter sets (what is left when all fields of a set are deleted), YAML anchors / merge keys
+		for _, nul := range []string{"  -\n", "  - ~\n", "  - null\n", "  - {}\n"} {
+			doc := c18Doc(base, def, sets)
+			add("null-entry-in-params:"+strings.TrimSpace(nul), doc+nul, "either", "a null / empty list entry")
+			add("null-entry-first-in-params:"+strings.TrimSpace(nul), strings.Replace(doc, "params:\n", "params:\n"+nul, 1), "either", "a null / empty list entry")
+		}
+		add("params-null-list", c18Doc(base, 0, nil)+"params: [null]\n", "either", "a list holding only null")
+		add("params-null", c18Doc(base, 0, nil)+"params: ~\n", "either", "params is null")
+		add("basedir-null", strings.Replace(c18Doc(base, def, sets), fmt.Sprintf("basedir: %q", base), "basedir: ~", 1), "reject", "no base directory")
+		add("default-null", strings.Replace(c18Doc(base, def, sets), fmt.Sprintf("default: %d", def), "default: ~", 1), "reject", "no default with parameter sets")
 		add("not-yaml", "{{{ not yaml", "reject", "not YAML")
 		add("empty-document", "", "reject", "empty document")
 		add("no-sets-default-0", c18Doc(base, 0, nil), "accept", "no sets at all and default 0")
